@@ -19,7 +19,8 @@ def run_config(unit):
     from vf import targets
     from Pyro5 import client, server, serializers, errors
     from Pyro5.callcontext import current_context
-    sername, comp, ann, max_nodes, si, sn = unit
+    sername, comp, ann, max_nodes, si, sn = unit[:6]
+    bytes_repr = bool(unit[6]) if len(unit) > 6 else False
     st = Stats()
     seen = set()
 
@@ -27,15 +28,16 @@ def run_config(unit):
         fp = "C01|%s|%s" % (sername, fp)
         if fp not in seen:
             seen.add(fp)
-            st.violations.append({"fingerprint": fp, "what": "%s [serializer=%s compression=%s annotations=%s value=%s]" % (what, sername, comp, ann, label),
-                                  "replay": {"unit": [sername, comp, ann, max_nodes, 0, 1], "label": label}})
+            st.violations.append({"fingerprint": fp, "what": "%s [serializer=%s compression=%s annotations=%s bytes_repr=%s value=%s]" % (what, sername, comp, ann, bytes_repr, label),
+                                  "replay": {"unit": [sername, comp, ann, max_nodes, 0, 1, bytes_repr], "label": label}})
 
     class AnnDaemon(server.Daemon):
         def annotations(self):
             return {"RESP": b"r"} if ann else {}
 
     gc.disable()
-    w = SyncWorld(SERIALIZER=sername, COMPRESSION=comp)
+    w = SyncWorld(SERIALIZER=sername, COMPRESSION=comp, SERPENT_BYTES_REPR=bytes_repr)
+    container_types = {}     # kind of container sent -> set of type names it arrives as (must be one per serializer: a *fixed* mapping)
     try:
         d = w.daemon(AnnDaemon)
         echo = targets.Echo()
@@ -113,6 +115,17 @@ def run_config(unit):
                     mm = get_result(m[1])
                     if mm[0] != "ok" or not same(mm[1], m[1]):
                         V("mapping-not-idempotent|%s" % type(v).__name__, "M(%s)=%s but M(M(v))=%s" % (show(v), show(m[1]), show(mm)), label)
+            # --- the mapping is fixed per type: what a container type turns into must not depend on what it contains,
+            #     and a one-element container maps element-wise
+            if m[0] == "ok" and type(v) in (list, tuple, set, frozenset, dict) and len(v) > 0:      # (serpent writes an empty set as an empty tuple: documented)
+                kind = type(v).__name__ if type(v) is not dict else ("dict-str" if all(isinstance(k, str) for k in v) else "dict-other")
+                container_types.setdefault(kind, {}).setdefault(type(m[1]).__name__, label)
+                if len(container_types[kind]) > 1:
+                    V("container-mapping-depends-on-content|%s" % kind, "%s values arrive as %r" % (kind, container_types[kind]), label)
+                if type(v) in (list, tuple) and len(v) == 1 and type(m[1]) in (list, tuple) and len(m[1]) == 1:
+                    inner = get_result(v[0])
+                    if inner[0] == "ok" and not same(inner[1], m[1][0]):
+                        V("mapping-not-elementwise|%s|%s" % (type(v).__name__, type(v[0]).__name__), "M(%s)=%s but its element alone maps to %s" % (show(v), show(m[1]), show(inner[1])), label)
             key = "%s:%s:%s" % (okclass, m[0], type(m[1]).__name__ if m[0] == "ok" else "exc")
             st.outcomes[key] = st.outcomes.get(key, 0) + 1
             st.states.add(label)
@@ -232,6 +245,8 @@ def run(ctx):
                 n = 4 if ctx.quick else 12
                 for i in range(n):
                     units.append((sername, comp, ann, max_nodes, i, n))
+    for i in range(2):
+        units.append(("serpent", False, False, max_nodes, i, 2, True))     # SERPENT_BYTES_REPR on: bytes travel as bytes, in every position
     total = Stats()
     for st in ctx.pmap(run_config, units):
         total.merge(st)
